@@ -50,6 +50,128 @@ def uses_raw(prog):
     return '"type": "' in s
 
 
+def fragment_programs(ctx):
+    """programs inside the fragment of the end-to-end theorem C01_items_sound: every struct shape and enum representation,
+    rename / rename_all / rename_all_fields / tag / content / skip / per-variant untagged, library types over earlier items, no generics /
+    flatten / inline / optional / as / type"""
+    rng = random.Random(ctx.seed * 19 + 6)
+    g = gen_corpus.Gen(rng)
+    RULES = gen_corpus.RULES
+    progs = []
+    for i in range(6 if ctx.quick else 80):
+        items, pool = [], []
+        for k in range(rng.choice([3, 4, 5, 6])):
+            name = f"F{i}_{k}"
+            attrs = {}
+            if rng.random() < 0.3: attrs["rename"] = f"Ren{i}_{k}"
+            def fld(nm):
+                g.used_names = getattr(g, "used_names", set())
+                f = g.field(nm, g.ty(2, pool), allow=("rename", "skip") if nm is not None else ("skip",))
+                f["attrs"].pop("docs", None)
+                return f
+            if rng.random() < 0.5:
+                shape = rng.choice(["named", "named", "tuple", "newtype", "unit", "empty_named", "empty_tuple"])
+                it = {"kind": "struct", "name": name, "attrs": attrs, "generics": [], "shape": "named", "fields": []}
+                g.used_names = set()
+                if shape == "named":
+                    it["fields"] = [fld(nm) for nm in rng.sample(gen_corpus.FIELD_NAMES, rng.choice([1, 2, 3, 4]))]
+                    if rng.random() < 0.4: attrs["rename_all"] = rng.choice(RULES)
+                    if rng.random() < 0.15: attrs["tag"] = rng.choice(["tag", "$kind"])
+                elif shape == "tuple":
+                    it["shape"], it["fields"] = "tuple", [fld(None) for _ in range(rng.choice([2, 3]))]
+                elif shape == "newtype":
+                    it["shape"], it["fields"] = "tuple", [{"name": None, "ty": g.ty(2, pool), "attrs": {}}]
+                elif shape == "unit":
+                    it["shape"] = "unit"
+                elif shape == "empty_tuple":
+                    it["shape"] = "tuple"
+            else:
+                repr_ = rng.choice(["external", "external", "internal", "adjacent", "untagged"])
+                it = {"kind": "enum", "name": name, "attrs": attrs, "generics": [], "variants": []}
+                if repr_ == "internal": attrs["tag"] = rng.choice(["type", "t"])
+                if repr_ == "adjacent": attrs["tag"], attrs["content"] = "t", "c"
+                if repr_ == "untagged": attrs["untagged"] = True
+                if rng.random() < 0.4: attrs["rename_all"] = rng.choice(RULES)
+                if rng.random() < 0.3: attrs["rename_all_fields"] = rng.choice(RULES)
+                for vn in rng.sample(gen_corpus.VARIANT_NAMES, rng.choice([1, 2, 3, 4])):
+                    g.used_names = set()
+                    sh = rng.choice(["unit", "struct", "struct"] if repr_ == "internal" else ["unit", "newtype", "tuple", "struct"])
+                    v = {"name": vn, "attrs": {}, "shape": "unit", "fields": []}
+                    if sh == "newtype":
+                        v["shape"], v["fields"] = "tuple", [{"name": None, "ty": g.ty(2, pool), "attrs": {}}]
+                    elif sh == "tuple":
+                        v["shape"], v["fields"] = "tuple", [fld(None) for _ in range(rng.choice([2, 3]))]
+                    elif sh == "struct":
+                        v["shape"] = "named"
+                        v["fields"] = [fld(nm) for nm in rng.sample([n for n in gen_corpus.FIELD_NAMES if n not in ("t", "c", "type")], rng.choice([1, 2, 3]))]
+                        if rng.random() < 0.3: v["attrs"]["rename_all"] = rng.choice(RULES)
+                    if rng.random() < 0.15: v["attrs"]["rename"] = f"v{len(it['variants'])}-renamed"
+                    it["variants"].append(v)
+                if repr_ not in ("untagged",) and rng.random() < 0.15 and it["variants"][-1]["shape"] != "unit":
+                    it["variants"][-1]["attrs"]["untagged"] = True
+            items.append(it)
+            pool.append(N(name))
+        imap = {x["name"]: x for x in items}
+        probes = [{"ty": N(x["name"]), "values": g.all_variant_values(N(x["name"]), imap)[:4]} for x in items]
+        progs.append({"items": items, "probes": probes})
+    return progs
+
+
+def tree_stream(ctx, c, qs, meta):
+    """the tree-level derive of the end-to-end theorem vs the real declarations"""
+    fprogs = fragment_programs(ctx)
+    freal, _ = e2e.build_and_run(ctx, "c01t", fprogs)
+    sets = [(c.programs, c.real, "corpus")]
+    if freal is not None:
+        sets.append((fprogs, freal, "fragment"))
+        fmodel = e2e.run_model_programs(fprogs, c.chars, os.path.join(vlib.SCRATCH, "e2e-c01t"))
+        for prog, R, M in zip(fprogs, freal, fmodel or []):
+            for pr, r, m in zip(prog["probes"], R, M):
+                for k in ("name", "inline", "decl", "values"):
+                    a, b = r.get(k), m.get(k)
+                    if k == "values":
+                        a, b = [e2e.jnorm(x) for x in a or []], [e2e.jnorm(x) for x in b or []]
+                    if a != b:
+                        ctx.broken.append(f"compiled correspondence (fragment programs): {pr['ty']['id']} {k}: impl={json.dumps(r.get(k))[:300]} model={json.dumps(m.get(k))[:300]}")
+                        break
+        # the real serde output of fragment programs is also judged by the oracle
+        for xi, (prog, R) in enumerate(zip(fprogs, freal)):
+            decls = [r["decl"]["ok"] for r in R if "ok" in r.get("decl", {})]
+            for qi, (pr, r) in enumerate(zip(prog["probes"], R)):
+                for vi, jtxt in enumerate(r.get("values", [])):
+                    if jtxt is not None and "ok" in r.get("name", {}) and not corpus.has_dup_keys(jtxt):
+                        qs.append({"op": "oracle_member", "decls": decls, "ty": r["name"]["ok"], "json": jtxt})
+                        meta.append((("f", xi), qi, vi, "name"))
+    lines, back = [c.chars], []
+    for progs, real, tag in sets:
+        for pi, (prog, R) in enumerate(zip(progs, real)):
+            byname = {}
+            for pr, r in zip(prog["probes"], R):
+                if pr["ty"]["k"] == "named" and not pr["ty"]["args"] and "ok" in r.get("decl", {}):
+                    byname.setdefault(pr["ty"]["id"], r["decl"]["ok"])
+            lines.append({"op": "tree_check", "items": prog["items"], "decls": [byname.get(it["name"], "") for it in prog["items"]]})
+            back.append((tag, pi, prog))
+    res = vlib.run_model(lines)
+    n_in = n_items = n_frag = 0
+    if res is None:
+        ctx.broken.append("tree_check: model driver unavailable")
+        return fprogs
+    for (tag, pi, prog), r in zip(back, res[1:]):
+        n_frag += 1 if r.get("frag") and r.get("sub") else 0
+        for it, row in zip(prog["items"], r.get("rows", [])):
+            n_items += 1
+            if not row.get("in"):
+                continue
+            n_in += 1
+            if not row.get("eq"):
+                ctx.broken.append(f"tree-level derive (model of C01_items_sound) differs from the parsed real decl(): {tag} program {pi} item {it['name']}: {json.dumps(it)[:400]}")
+    ctx.stream("tree derive vs real declarations", n_items, n_in,
+               "every item of every corpus program and of dedicated fragment programs: the largest closed sub-program inside the fragment of C01_items_sound is computed, `fragB` evaluated on it, "
+               "and the tree-level derive of each of its items compared (modulo union flattening / parentheses) with the parsed REAL decl(); non-trivial = items inside the fragment",
+               [], {"programs_with_a_fragment": n_frag, "items_in_fragment": n_in})
+    return fprogs
+
+
 def xdecls(xprogs, xreal, xi):
     return [r["decl"]["ok"] for r in xreal[xi] if "ok" in r.get("decl", {})]
 
@@ -103,13 +225,14 @@ def run(ctx):
                         continue
                     qs.append({"op": "oracle_member", "decls": xdecls(xprogs, xreal, xi), "ty": r["name"]["ok"], "json": jtxt})
                     meta.append((("x", xi), qi, vi, "name"))
+    fprogs = tree_stream(ctx, c, qs, meta)
     res = vlib.run_model(qs) if qs else []
     fails = unparsed = 0
     known_hit = {}
     for q, (pi, qi, vi, which), v in zip(qs, meta, res or []):
         if v.get("ok") is True and v.get("decls_parsed") == v.get("decls_given"):
             continue
-        prog = xprogs[pi[1]] if isinstance(pi, tuple) else c.programs[pi]
+        prog = (xprogs if pi[0] == "x" else fprogs)[pi[1]] if isinstance(pi, tuple) else c.programs[pi]
         case = {"items": prog["items"], "probe": prog["probes"][qi]["ty"], "value": prog["probes"][qi]["values"][vi], "via": which + "()"}
         if "ok" not in v or v.get("decls_parsed") != v.get("decls_given"):
             unparsed += 1
